@@ -475,6 +475,29 @@ Definition prog_in_F (lv : nat) (p : program) : bool :=
 
 Definition prog_in_F3 := prog_in_F 3.
 
+(* no call of the function `self` is in tail position of e (tail positions, front/tailrec.c: the
+   expression itself, both branches of ?: / if-else, the last expression item of a block) *)
+Definition nst_items_f (f : expr -> bool) :=
+  fix go (l : list item) : bool :=
+  match l with
+  | [] => true
+  | IExpr e :: t => match t with [] => f e | _ => go t end
+  | _ :: t => go t
+  end.
+
+Fixpoint nst (self : ident) (e : expr) {struct e} : bool :=
+  match e with
+  | ECond _ a b => nst self a && nst self b
+  | EBlock items => nst_items_f (nst self) items
+  | ECall (EVar f) _ => negb (N.eqb f self)
+  | _ => true
+  end.
+
+Definition no_self_tail_fd (fd : fdef) : bool := nst (fd_name fd) (EBlock (fd_body fd)).
+Definition no_self_tail (p : program) : bool := forallb no_self_tail_fd (p_funcs p).
+
+
+
 (* ---- unfolding equations ---------------------------------------------------------------- *)
 
 Lemma compile_items_nil : forall FT L ce, compile_items FT L ce [] = [].
@@ -498,3 +521,27 @@ Proof.
   intros. unfold compile_expr. cbn [cexpr compile_items_f nbinds block_end]. unfold block_end.
   simpl (0 <? 0). rewrite !app_nil_r. reflexivity.
 Qed.
+
+(* without a self call in tail position the tail-position compilation is the plain one *)
+Lemma nst_eq : forall FT self e L ce, nst self e = true ->
+  cexpr FT (Some self) true L ce e = cexpr FT None false L ce e.
+Proof.
+  intros FT self. fix IH 1. intros e L ce H. destruct e; try reflexivity.
+  - (* ECond *) cbn [nst] in H. apply andb_true_iff in H. destruct H as [H2 H3].
+    cbn [cexpr]. rewrite (IH e2 L ce H2), (IH e3 L ce H3). reflexivity.
+  - (* ECall *) destruct e; try reflexivity. cbn [nst] in H. cbn [cexpr].
+    unfold self_is. apply negb_true_iff in H. rewrite H. reflexivity.
+  - (* EBlock *) cbn [nst] in H. cbn [cexpr]. f_equal.
+    revert L ce H. induction items as [|it t IHt]; intros L ce H; [reflexivity|].
+    destruct it as [x e | x e | fd | e]; cbn [compile_items_f nst_items_f] in *.
+    + f_equal. apply IHt. exact H.
+    + f_equal. apply IHt. exact H.
+    + apply IHt. exact H.
+    + destruct t as [|it2 t2].
+      * rewrite (IH e L ce H). reflexivity.
+      * f_equal. f_equal. apply IHt. exact H.
+Qed.
+
+Lemma no_self_tail_body : forall FT fd, no_self_tail_fd fd = true ->
+  compile_body FT fd = compile_expr FT 0 (param_env (fd_params fd) 0) (EBlock (fd_body fd)).
+Proof. intros FT fd H. unfold compile_body, compile_expr. apply nst_eq. exact H. Qed.
